@@ -16,7 +16,7 @@ from ..common import ToolError
 from ..extract import base
 
 NEEDS = ["driver"]
-TOK = {"TXT": "word", "NL": "\n", "CRLF": "\r\n", "CR": "\r", "BC": "*/", "BO": "/*", "LC": "//", "TDQ": '"""', "DDQ": '""', "QDQ": '""""', "PDQ": '"""""', "TSQ": "'''", "BS": "\\", "HASH": "#", "BT": "`", "DQ": '"'}
+TOK = {"TXT": "word", "NL": "\n", "CRLF": "\r\n", "CR": "\r", "SL": "*", "NLSL": "\n*", "NLBC": "\n*/", "BC": "*/", "BO": "/*", "LC": "//", "TDQ": '"""', "DDQ": '""', "QDQ": '""""', "PDQ": '"""""', "TSQ": "'''", "BS": "\\", "HASH": "#", "BT": "`", "DQ": '"'}
 POSITIONS = ["type", "field", "variant", "vfield", "alias", "uvariant", "tagged"]
 MARK = re.compile(r"D\d+x")
 
@@ -24,7 +24,8 @@ MARK = re.compile(r"D\d+x")
 def doc_text(doc):
     """token sequence -> text; every token is followed by a marker so that its fate can be traced"""
     # a line-break token has a word before it, so that it is never the (trimmed) beginning of the text
-    return " ".join(TOK[t] + f" D{i}x" if t not in ("NL", "CRLF", "CR") else f"w{TOK[t]}D{i}x" for i, t in enumerate(doc))
+    return " ".join(TOK[t] + f" D{i}x" if t not in ("NL", "CRLF", "CR", "NLSL", "NLBC") else f"w{TOK[t]}D{i}x" if t in ("NL", "CRLF", "CR") else f"w{TOK[t]} D{i}x"
+                    for i, t in enumerate(doc))
 
 
 def attr(doc, style, indent=""):
@@ -39,7 +40,7 @@ def attr(doc, style, indent=""):
 
 def usable(doc, style):
     if style == "block":       # the text must not end the Rust block comment itself, and /* must not open a nested one
-        return "BC" not in doc and "BO" not in doc and "CR" not in doc
+        return "BC" not in doc and "BO" not in doc and "CR" not in doc and "NLBC" not in doc
     if style == "line":        # a bare carriage return is not allowed in a Rust `///` comment; CR LF is an ordinary line ending
         return "CR" not in doc
     return True
